@@ -192,7 +192,7 @@ def debug(*items, **kwargs):
         item = item
         cloned_kwargs = kwargs.copy()
         cloned_kwargs.setdefault('message', item)
-        feedback(label="debug", **kwargs)
+        feedback(label="debug", **cloned_kwargs)
 
 
 def clear_report(report=MAIN_REPORT):
